@@ -8,8 +8,8 @@ package schema
 // Bound: 17 leaf schemas (int/float/string/bool/pattern/enums/any, with and without bounds and units) x their raw
 // representations (int, int64, uint64, float64, numeric strings, ...); containers list / map[string] / map[int64] /
 // map-based object (required, default, required_if, conflicts) / one-of (inlined and non-inlined discriminator) /
-// scope+ref over every leaf, nested to depth 2 (quick) or 3 (thorough); three struct-mapped object shapes with
-// treat-empty-as-default and presence rules; every accepted input goes through: Validate, Serialize, CBOR
+// scope+ref over every leaf, nested to depth 2 (quick) or 3 (thorough); six struct-mapped object shapes (treat-empty-as-default and presence rules; by-value sub-objects with nested
+// defaults as typed object, plain struct-mapped object and reference); every accepted input goes through: Validate, Serialize, CBOR
 // encode+decode, Unserialize of both forms, deep equality, re-serialization equality.
 
 import (
@@ -136,6 +136,16 @@ type c01ReqIf struct {
 	Timeout *int64 `json:"timeout"`
 	Count   int64  `json:"count"`
 }
+type c01Tuning struct {
+	Mode    string `json:"mode"`
+	Workers int64  `json:"workers"`
+}
+type c01WithTuning struct {
+	Name   string     `json:"name"`
+	Tuning c01Tuning  `json:"tuning"`
+	Extra  *c01Tuning `json:"extra"`
+}
+
 type c01Nested struct {
 	Name  string       `json:"name"`
 	Inner c01Conflict  `json:"inner"`
@@ -162,7 +172,32 @@ func c01Structs() []c01Case {
 		"ptr":   NewPropertySchema(conflict(), nil, false, nil, nil, nil, nil, nil),
 		"tags":  NewPropertySchema(NewListSchema(str(), nil, nil), nil, false, nil, nil, nil, nil, nil),
 	})
+	// nested by-value sub-objects whose defaults must be filled in (the Go zero value of the sub-struct is not valid):
+	// as a typed object (generic wrapper), as a plain struct-mapped object, and behind a reference
+	tuningProps := func() map[string]*PropertySchema {
+		return map[string]*PropertySchema{
+			"mode":    NewPropertySchema(NewStringEnumSchema(map[string]*DisplayValue{"fast": nil, "safe": nil}), nil, false, nil, nil, nil, c01P(`"safe"`), nil),
+			"workers": NewPropertySchema(NewIntSchema(c01P(int64(1)), c01P(int64(64)), nil), nil, false, nil, nil, nil, c01P(`4`), nil),
+		}
+	}
+	withTuning := func(sub Type, extra Type) *ObjectSchema {
+		return NewStructMappedObjectSchema[c01WithTuning]("WithTuning", map[string]*PropertySchema{
+			"name":   NewPropertySchema(str(), nil, true, nil, nil, nil, nil, nil),
+			"tuning": NewPropertySchema(sub, nil, false, nil, nil, nil, nil, nil),
+			"extra":  NewPropertySchema(extra, nil, false, nil, nil, nil, nil, nil),
+		})
+	}
+	tuningRaws := []any{map[string]any{"name": "x"}, map[string]any{"name": "x", "tuning": map[string]any{"mode": "fast"}}, map[string]any{"name": "x", "tuning": map[string]any{"workers": uint64(8)}, "extra": map[string]any{}}, map[any]any{"name": "x", "extra": map[any]any{"mode": "fast", "workers": "2"}}}
+	typedSub := withTuning(NewTypedObject[c01Tuning]("Tuning", tuningProps()), NewTypedObject[*c01Tuning]("Tuning", tuningProps()))
+	plainSub := withTuning(NewStructMappedObjectSchema[c01Tuning]("Tuning", tuningProps()), NewStructMappedObjectSchema[*c01Tuning]("Tuning", tuningProps()))
+	refScope := NewScopeSchema(
+		withTuning(NewRefSchema("Tuning", nil), NewStructMappedObjectSchema[*c01Tuning]("TuningP", tuningProps())),
+		NewStructMappedObjectSchema[c01Tuning]("Tuning", tuningProps()),
+	)
 	return []c01Case{
+		{"struct-sub-typedobject", typedSub, tuningRaws},
+		{"struct-sub-plain", plainSub, tuningRaws},
+		{"struct-sub-ref", refScope, tuningRaws},
 		{"struct-conflict", conflict(), []any{map[string]any{}, map[string]any{"mode": "m"}, map[string]any{"custom": "c"}, map[string]any{"mode": "", "custom": "c"}, map[any]any{"mode": "m", "custom": "c"}, "x"}},
 		{"struct-requiredif", reqif, []any{map[string]any{}, map[string]any{"mode": "m"}, map[string]any{"mode": "m", "timeout": int64(1)}, map[string]any{"mode": ""}, map[string]any{"mode": "", "timeout": uint64(2)}, map[string]any{"count": "5"}, map[string]any{"timeout": 1}}},
 		{"struct-nested", nested, []any{map[string]any{"name": "n"}, map[string]any{"name": "n", "inner": map[string]any{"custom": "c"}}, map[any]any{"name": "n", "ptr": map[any]any{"mode": "m"}, "tags": []any{"a", "b"}}, map[string]any{"name": "n", "inner": map[string]any{"mode": ""}, "tags": []any{}}, map[string]any{}}},
@@ -323,7 +358,7 @@ func TestStandinC01RoundTrip(t *testing.T) {
 			}()
 		}
 	}
-	fmt.Printf("STANDIN C01 checked=%d failures=%d bound=%d schemas (leaf kinds nested to depth %d, 3 struct-mapped shapes), %d (schema, raw input) pairs, %d accepted and round-tripped in memory and through CBOR\n",
+	fmt.Printf("STANDIN C01 checked=%d failures=%d bound=%d schemas (leaf kinds nested to depth %d, 6 struct-mapped shapes), %d (schema, raw input) pairs, %d accepted and round-tripped in memory and through CBOR\n",
 		checked, failures, len(cases), depth, checked, accepted)
 	if failures > 0 {
 		t.Fail()
